@@ -19,11 +19,16 @@ def seeded():
         cr = m.get("check_result", {})
         notes = cr.get("keys_or_notes", "")
         caught = "`./check %s`" % name.split("-")[0]
+        m2 = re.search(r"(?:caught by|by) \./check (C\d\d)", notes)
+        if m2:
+            caught = "`./check %s`" % m2.group(1)
         if "thorough" in notes.lower():
             caught += " (thorough)"
         if not cr.get("caught", False):
             caught = "**not caught**"
-        print("| %s | %s | %s | %s |" % (name, clip(m.get("summary", ""), 170).replace("|", "\\|"), caught, clip(notes, 150).replace("|", "\\|")))
+            if "not a violation" in notes.lower() or "outside" in notes.lower():
+                caught = "not caught (outside the statement, see notes)"
+        print("| %s | %s | %s | %s |" % (name, clip(m.get("summary", ""), 170).replace("|", "\\|"), caught, clip(notes, 260).replace("|", "\\|")))
 
 
 def findings_open():
